@@ -31,6 +31,12 @@ def configs(tier, seed):
         if tier == 'quick' and c['dim'] == 1 and not ((i + seed) % 3 == 0 or c['N'] <= 5):
             continue
         out.append(dict(c, mask=[]))
+    # None levels with distinct column / row filters (4-tuples)
+    for w in ('pair:db2|bior1.3', 'pair:haar|db2'):
+        for mode in D.MODES:
+            out.append(dict(dim=2, wave=w, mode=mode, J=1, H=10, W=12, B=1, C=1, mask=[1]))
+            out.append(dict(dim=2, wave=w, mode=mode, J=2, H=16, W=24, B=1, C=1, mask=[1, 0]))
+            out.append(dict(dim=2, wave=w, mode=mode, J=2, H=16, W=24, B=1, C=1, mask=[0, 1]))
     for mode in ('zero', 'periodization'):
         out.append(dict(dim=1, wave='db2', mode=mode, J=2, N=9, B=1, C=2, mask=[], prelude='f32call'))
         out.append(dict(dim=2, wave='db2', mode=mode, J=1, H=5, W=6, B=1, C=1, mask=[], prelude='f32call'))
